@@ -448,6 +448,37 @@ def check_choice_points(ctx: Ctx, prog: Program) -> None:
     ctx.floor("R-PUSH-POP:cp_init-paths", len(res), 1)
 
 
+def _push_on_every_path(ctx: Ctx, prog: Program, fn: FuncInfo) -> None:
+    voc = heuristic_vocab(prog, fn)
+    sroot, troot, dname = voc[STACK], voc[TOP], voc["dom_idx"]
+    MIN, MAX = prog.C("MIN"), prog.C("MAX")
+    it = Interp(prog)
+    st = State()
+    T = init(troot, K(0))
+    d = S("d")
+    lo, hi = init(sroot, T, d, K(MIN)), init(sroot, T, d, K(MAX))
+    st.facts.add(cmp_cond("<=", lo, hi))  # any non-empty domain, instantiated or not
+    st.facts.add(cmp_cond(">=", T, ZERO))
+    bad = None
+    n = 0
+    for r in it.run(fn, args={dname: d}, state=st):
+        if r.outcome != "return":
+            continue
+        n += 1
+        top2 = it.load_at(r.state, len(r.state.heap), troot, (K(0),))
+        k = _const(top2 - T)
+        if k is None or k < 1:
+            bad = (r, top2)
+    if bad is None:
+        ctx.ok("R-PARTITION", f"{fn.name}: every return path has pushed at least one level (also for an instantiated domain)", sample={"paths": n})
+    else:
+        loc, rfn, _ = _return_site(bad[0])
+        ctx.violation("R-PARTITION", fn.path, fn.name, "no-push-path", loc,
+                      f"value heuristic {fn.name} has a path that returns with the stack pointer at {show_val(bad[1])} (nothing pushed): solve_one's descent is "
+                      "bounded by the stack guard only because every decision pushes a level; when the variable heuristic answers 'none left' (-1, the last "
+                      "shared domain) while a free variable is not a decision variable, this path changes nothing and the search loop never ends")
+
+
 def check_value_heuristics(ctx: Ctx, prog: Program) -> None:
     ctx.rule("R-PARTITION")
     ctx.rule("R-BRANCH-EVENTS")
@@ -459,6 +490,11 @@ def check_value_heuristics(ctx: Ctx, prog: Program) -> None:
             raise AnalysisError(f"unresolved value heuristic registration: {ent}")
         n += 1
         total_paths += analyse_heuristic(ctx, prog, ent, ent.name)
+    # the descent of the search is bounded by the stack guard only because every decision pushes: also for a domain that is already a single
+    # value (the variable heuristic's 'none left' answer designates the last shared domain, which may be instantiated)
+    for ent in reg.entries:
+        if isinstance(ent, FuncInfo):
+            _push_on_every_path(ctx, prog, ent)
     ctx.floor("R-PARTITION:registered-heuristics", n, 5)
     ctx.floor("R-PARTITION:return-paths", total_paths, 9)
     ctx.assume("the variable heuristic hands the value heuristic a domain with lo < hi (R-SENTINEL, C04)")
